@@ -22,7 +22,7 @@ type WFaultCase struct {
 	OnlyKind string `json:"only_kind,omitempty"`
 }
 
-var wfaultKinds = []string{xport.FaultError, xport.FaultTimeout, xport.FaultShort, xport.FaultTemporary, xport.FaultShortTemporary, xport.FaultFullErr}
+var wfaultKinds = []string{xport.FaultError, xport.FaultTimeout, xport.FaultShort, xport.FaultTemporary, xport.FaultShortTemporary, xport.FaultFullErr, xport.FaultShortTimeout}
 
 func genWFaultCase(t *rapid.T) WFaultCase {
 	var c WFaultCase
